@@ -225,7 +225,9 @@ def run(ctx):
 
     # ---------------- (b) gate: Push
     rc, out, trace = core.harness_pkg(ctx, "explorer_processor", "^TestVerifC19Push$")
-    rows = [r for r in core.read_jsonl(trace) if r.get("k") == "push"]
+    allrows = core.read_jsonl(trace)
+    monitor(ctx, [r for r in allrows if r.get("k") == "probe"], "probe")
+    rows = [r for r in allrows if r.get("k") == "push"]
     if rc != 0 or not rows:
         ctx.problem("correspondence", "go harness C19 (processor)", out[-1500:])
     else:
@@ -263,7 +265,7 @@ def run(ctx):
         ctx.evaluations += summ[0]["lookups"]
     for r in rrows:
         if r.get("k") == "race":
-            key = {"panic": "lookup-during-append:panic", "wrong-set": "lookup-during-append:wrong-set"}.get(r["class"], "lookup-during-append:" + r["class"])
+            key = "lookup-during-append:" + r["class"]
             ctx.problem("monitor", r["mon"][0], "observed on the implementation (TestVerifC19Race)", concrete=True,
                         replay={k: v for k, v in r.items() if k not in ("mon", "k")}, key=key)
     store_races = {k: v for k, v in races.items() if any("gst_data.go" in x for x in k)}
@@ -308,6 +310,8 @@ def monitor(ctx, rows, what):
                 cls = "gate:queued-without-quorum"
             elif "WAS NOT INGESTED" in m:
                 cls = "dedup:failed-handoff-marked"
+            elif "was rejected" in m:
+                cls = "gate:valid-rejected"
             elif "panicked" in m:
                 cls = "panic:" + what
             elif "returned the set with index" in m:
